@@ -36,8 +36,10 @@ def ackOf (s : Sys) (op : Op) (r : Resp) : Option (Addr × Addr) :=
   | .cresume i, .commit (.ok true) => (s.hs i).pc.map fun p => (p.last, p.cur)
   | _, _ => none
 
+/-- steps that rewrite the table-spec list of the manifest without being a commit -/
 def Op.isAddTables : Op → Bool
   | .addTables _ _ => true
+  | .conjoin _ => true
   | _ => false
 
 structure StepFacts (s s' : Sys) (op : Op) (r : Resp) : Prop where
